@@ -837,9 +837,10 @@ package leader
 //@   on ret KeyValue.Get set got = true
 //@   on store kvElection.revision assert C07+C01.leader_never_adopts_observed_revision: !sawLeader
 //@   on store kvElection.leaderID as s assert C18.leader_never_adopts_observed_id: !sawLeader || s.value == e.cfg.InstanceID
-//@   ensures C06.vacancy_triggers_acquire: got && (getErr != nil || getEnt == nil || LenOf(EntryVal(getEnt)) == 0) ==> spawns(attemptAcquireWithRetry) == 1
-//@   ensures C13.no_acquire_on_live_record: got && getErr == nil && getEnt != nil && LenOf(EntryVal(getEnt)) != 0 ==> spawns(attemptAcquireWithRetry) == 0
-//@   ensures C06.leader_skips: !got ==> spawns(attemptAcquireWithRetry) == 0
+//@   ensures C06.vacancy_triggers_acquire: got && (getErr != nil || getEnt == nil || LenOf(EntryVal(getEnt)) == 0) ==> spawns(startAcquire$1) == 1
+//@   ensures C13.no_acquire_on_live_record: got && getErr == nil && getEnt != nil && LenOf(EntryVal(getEnt)) != 0 ==> spawns(startAcquire$1) == 0
+//@   ensures C06.leader_skips: !got ==> spawns(startAcquire$1) == 0
+//@   on call startAcquire as c assert C06+C09.acquire_bound_to_given_ctx: c.ctx == ctx
 //@   ensures C06.periodic_check_skipped_only_by_leader: !got ==> sawLeader
 
 //@ func (e *kvElection) handleWatchEvent(entry)
@@ -857,8 +858,13 @@ package leader
 //@   on call becomeFollower set demote_cause = sawLeader && ParseOK(EntryVal(entry)) && IDOf(EntryVal(entry)) != e.cfg.InstanceID && revLoaded && EntryRev(entry) > ownRev
 //@   on ret becomeFollower as r set cleared = r.result
 //@   on spawn handleWatchEvent$1 assert C10.watch_gate: e.cfg.AllowPriorityTakeover && ParseOK(EntryVal(entry)) && e.cfg.Priority > PrioOf(EntryVal(entry))
-//@   ensures C06.vacancy_triggers_acquire: entry == nil || LenOf(EntryVal(entry)) == 0 ==> spawns(attemptAcquireWithRetry) == 1
-//@   ensures C13.no_acquire_on_live_record: entry != nil && LenOf(EntryVal(entry)) != 0 ==> spawns(attemptAcquireWithRetry) == 0
+//@   ghost ectx Int = 0
+//@   ghost acqCtx Int = 0
+//@   on load kvElection.ctx as l set ectx = l.value
+//@   on call startAcquire as c set acqCtx = c.ctx
+//@   on call startAcquire as c assert C06+C09.acquire_bound_to_election_ctx: c.ctx == ectx
+//@   ensures C06.vacancy_triggers_acquire: entry == nil || LenOf(EntryVal(entry)) == 0 ==> calls(startAcquire) == 1 && (acqCtx != nil ==> spawns(startAcquire$1) == 1)
+//@   ensures C13.no_acquire_on_live_record: entry != nil && LenOf(EntryVal(entry)) != 0 ==> spawns(startAcquire$1) == 0
 //@   ghost knownLeader Int = 0
 //@   on load kvElection.leaderID as l set knownLeader = l.value
 //@   ensures C10.reevaluates_each_event: entry != nil && LenOf(EntryVal(entry)) != 0 && ParseOK(EntryVal(entry)) && !sawLeader && knownLeader == IDOf(EntryVal(entry)) && e.cfg.AllowPriorityTakeover && e.cfg.Priority > PrioOf(EntryVal(entry)) ==> spawns(handleWatchEvent$1) == 1
